@@ -383,7 +383,7 @@ class SSHChannel(Generic[AnyStr], SSHPacketHandler):
         else:
             decoded_data = cast(AnyStr, data)
 
-        if self._session is not None:
+        if self._session is not None and decoded_data:
             self._session.data_received(decoded_data, datatype)
 
     def _accept_data(self, data: bytes, datatype: DataType = None) -> None:
